@@ -27,6 +27,7 @@ type fsStats struct {
 	symKinds                                     map[string]bool
 	depth                                        int
 	specialPerms                                 int
+	hardLinks                                    int
 }
 
 var fsNames = []string{"a", "b.txt", "with space", "ünïcödé", "日本語", "%41", "0", "07", "FF", "0Aname", "UPPER", "upper", ".hidden", "..two", "tab\tname", "x-😀", "trailing.", "-dash", "~tilde", "a%2Fb"}
@@ -67,6 +68,17 @@ func makeFSTree(r *rand.Rand, dir string, depth int, st *fsStats, budget *int) {
 			}
 			if err := os.WriteFile(p, content, 0o644); err != nil {
 				panic(err)
+			}
+			if r.Intn(4) == 0 {
+				// a second (and third) name for the same file in the same directory: hard links
+				for h := 0; h < 1+r.Intn(2); h++ {
+					ln := fmt.Sprintf("hardlink%d-%x", h, r.Uint32())
+					if !used[ln] && os.Link(p, filepath.Join(dir, ln)) == nil {
+						used[ln] = true
+						st.files++
+						st.hardLinks++
+					}
+				}
 			}
 			if r.Intn(5) == 0 {
 				// setuid / setgid / sticky, unusual permission sets
@@ -261,7 +273,30 @@ func TestC18(t *testing.T) {
 			}
 			c.Count("trees", 1)
 			c.Count("special_permission_entries", int64(stt.specialPerms))
+			c.Count("hard_linked_names", int64(stt.hardLinks))
 			compareFS(c, st, st.LinkSystem(false), linkCid(l), root)
+			// the same tree named by other spellings of its root path
+			par, base := filepath.Dir(root), filepath.Base(root)
+			spellings := []string{root + "/", par + "/./" + base, par + "//" + base, root + "/."}
+			if ents, err := os.ReadDir(root); err == nil {
+				for _, e := range ents {
+					if e.IsDir() {
+						spellings = append(spellings, root+"/"+e.Name()+"/..")
+						break
+					}
+				}
+			}
+			spelled := spellings[i%len(spellings)]
+			var l3 ipld.Link
+			var err3 error
+			if c.Guard("BuildUnixFSRecursive (other spelling of the root)", func() { l3, _, err3 = builder.BuildUnixFSRecursive(spelled, store.New().LinkSystem(false)) }) {
+				c.Count("root_spellings", 1)
+				if err3 != nil {
+					c.Violation("C18|import-error", "the tree imports as %q but is refused as %q: %v", root, spelled, err3)
+				} else if l3 == nil || l3.String() != l.String() {
+					c.Violation("C18|root-spelling", "the tree imported as %q gives %v, as %q it gives %v", root, l, spelled, l3)
+				}
+			}
 			kinds := make([]string, 0)
 			for k := range stt.symKinds {
 				kinds = append(kinds, strings.Split(k, "-")[0])
